@@ -36,6 +36,8 @@ pub fn drive(t: &mut Tracer, r: &mut Rng, n: usize) {
                 0 | 1 => { // wall reading near a transition's local image
                     let o = *r.pick(&offs); let w = near(r, &ats, 90_000) + o;
                     t.call("Zoned.fromLocal", json!({"zone": zone, "w": w, "dis": *r.pick(&DIS)})); }
+                2 if r.chance(1, 5) => { let day = near(r, &ats, 90_000).div_euclid(86_400);
+                    t.call("Zoned.fromDate", json!({"zone": zone, "day": day, "tt": *r.pick(&["none", "midnight"])})); }
                 2 => { if r.chance(1, 2) { t.call("Zoned.wall", json!({"zone": zone, "t": near(r, &ats, 4000)})); }
                        else { t.call("Zoned.views", json!({"zone": zone, "t": near(r, &ats, 4000), "via": *r.pick(&VIAS)})); } }
                 _ => { let o = *r.pick(&offs); let w = near(r, &ats, 50_000) + o;
